@@ -102,7 +102,7 @@ func c04Optional(op string, typ byte, off uint64) bool {
 		return true // the listing's deferred close: its error is dropped by design
 	case strings.HasPrefix(op, "File.WriteTo-concurrent") && typ == wire.Read && off >= 64:
 		return true // speculative reads beyond the one that reports EOF
-	case op == "File.ReadAt-concurrent-eof" && typ == wire.Read && off >= 48:
+	case strings.HasPrefix(op, "File.ReadAt-concurrent-eof") && typ == wire.Read && off >= 48:
 		return true // the short chunk at 32 already decides the result
 	}
 	return false
